@@ -84,15 +84,23 @@ theorem pureBuild_ok_cls (U : Universe) (c : ClassId) (p : Option Str) (m : Meta
 /-- every cached meta is the cache-free meta for *some* request made since the
 last reset; the index, if stamped, is the cache-free index of a world seen
 since then -/
-structure Inv (U : Universe) (t : Track) (s : State) : Prop where
+structure InvR (R : List (Str × List ClassId) → List (Str × List ClassId) → Prop)
+    (U : Universe) (t : Track) (s : State) : Prop where
   cache : ∀ c m, s.cache.lookup c = some m → ∃ p, (c, p) ∈ t.uses ∧ pureBuild U c p = .ok m
-  xsi : s.sysModules = 0 ∨ ∃ w ∈ t.worlds, s.sysModules = w.mods + 1 ∧ s.xsi = pureIndex U w.loaded
+  xsi : s.sysModules = 0 ∨ ∃ w ∈ t.worlds, s.sysModules = w.mods + 1 ∧ R s.xsi (pureIndex U w.loaded)
 
-theorem Inv.init (U : Universe) (t : Track) : Inv U t State.init :=
+/-- the strong invariant: the stamped index *is* the cache-free index.  (`InvR`
+with a weaker relation is used for histories that evict unbuildable classes,
+see `Proofs/CtxEvict.lean`.) -/
+abbrev Inv := InvR (@Eq (List (Str × List ClassId)))
+
+theorem InvR.init {R} (U : Universe) (t : Track) : InvR R U t State.init :=
   ⟨by intro c m h; simp [State.init, List.lookup] at h, Or.inl rfl⟩
 
-theorem Inv.mono {U : Universe} {t t' : Track} {s : State} (h : Inv U t s)
-    (hu : ∀ u ∈ t.uses, u ∈ t'.uses) (hw : ∀ w ∈ t.worlds, w ∈ t'.worlds) : Inv U t' s := by
+theorem Inv.init (U : Universe) (t : Track) : Inv U t State.init := InvR.init U t
+
+theorem InvR.mono {R} {U : Universe} {t t' : Track} {s : State} (h : InvR R U t s)
+    (hu : ∀ u ∈ t.uses, u ∈ t'.uses) (hw : ∀ w ∈ t.worlds, w ∈ t'.worlds) : InvR R U t' s := by
   refine ⟨?_, ?_⟩
   · intro c m hl
     obtain ⟨p, hp, hb⟩ := h.cache c m hl
@@ -109,7 +117,7 @@ theorem consistent_sub {U : Universe} {us us' : List Use} (h : consistent U us')
   exact h a (hs a ha) b (hs b hb)
 
 /-- a cached meta equals the cache-free meta of the current request -/
-theorem cached_eq_pure {U : Universe} {t : Track} {s : State} (hI : Inv U t s)
+theorem cached_eq_pure {R} {U : Universe} {t : Track} {s : State} (hI : InvR R U t s)
     (hc : consistent U t.uses) {c : ClassId} {p : Option Str} (hu : (c, p) ∈ t.uses)
     {m : Meta} (hl : s.cache.lookup c = some m) : pureBuild U c p = .ok m := by
   obtain ⟨p0, hp0, hb⟩ := hI.cache c m hl
@@ -123,9 +131,9 @@ theorem cached_eq_pure {U : Universe} {t : Track} {s : State} (hI : Inv U t s)
     exact hb
 
 /-- **`build` refines the specification** -/
-theorem doBuild_spec {U : Universe} {t : Track} {s : State} (hI : Inv U t s)
+theorem doBuild_spec {R} {U : Universe} {t : Track} {s : State} (hI : InvR R U t s)
     (hc : consistent U t.uses) {c : ClassId} {p : Option Str} (hu : (c, p) ∈ t.uses) :
-    ∃ s', doBuild U s c p = (s', pureBuild U c p) ∧ Inv U t s' ∧ s'.xsi = s.xsi ∧
+    ∃ s', doBuild U s c p = (s', pureBuild U c p) ∧ InvR R U t s' ∧ s'.xsi = s.xsi ∧
       s'.sysModules = s.sysModules ∧ (∀ m, pureBuild U c p = .ok m → s'.cache.lookup c = some m) := by
   unfold doBuild
   cases hl : s.cache.lookup c with
@@ -227,14 +235,14 @@ theorem doFetch_spec {U : Universe} {t : Track} {s : State} (hI : Inv U t s) {w 
       exact ⟨rfl, hI1⟩
 
 /-- **`local_names_match` refines the specification** (outside the eviction path) -/
-theorem doLocalNamesMatch_spec {U : Universe} {t : Track} {s : State} (hI : Inv U t s)
+theorem doLocalNamesMatch_spec {R} {U : Universe} {t : Track} {s : State} (hI : InvR R U t s)
     (hc : consistent U t.uses) {c : ClassId} (hu : (c, none) ∈ t.uses)
     (hne : buildable U c = true ∨ indexKey U c = none) (names : List Str) :
     ∃ s', doLocalNamesMatch U s names c =
         (s', .ok (match pureBuild U c none with
           | .ok m => namesMatch names m
           | .error _ => false)) ∧
-      Inv U t s' ∧ s'.xsi = s.xsi ∧ s'.sysModules = s.sysModules ∧
+      InvR R U t s' ∧ s'.xsi = s.xsi ∧ s'.sysModules = s.sysModules ∧
       (∀ m, pureBuild U c none = .ok m → s'.cache.lookup c = some m) := by
   obtain ⟨s1, hb1, hI1, hx1, hm1, hl1⟩ := doBuild_spec hI hc hu
   unfold doLocalNamesMatch
@@ -257,65 +265,40 @@ theorem buildable_ok {U : Universe} {c : ClassId} (h : buildable U c = true) :
   | error e => simp [hb] at h
 
 /-- the inner loop of `find_type_by_fields` when nothing is evicted -/
-theorem scanTypes_spec {U : Universe} {t : Track} (hc : consistent U t.uses) (names : List Str)
-    (k : Str) (l : List ClassId) (hb : ∀ c ∈ l, buildable U c = true)
-    (hu : ∀ c ∈ l, (c, none) ∈ t.uses) :
-    ∀ (fuel i : Nat) (s : State) (acc : List Choice), Inv U t s → s.xsi.lookup k = some l →
-      l.length ≤ fuel + i →
-      ∃ s', scanTypes U names k fuel i s acc =
-          (s', .ok (acc ++ (l.drop i).filterMap (choiceOf U names))) ∧
+theorem scanTypes_spec {U : Universe} {t : Track} (hc : consistent U t.uses) (names : List Str) :
+    ∀ (l : List ClassId) (s : State) (acc : List Choice), Inv U t s →
+      (∀ c ∈ l, buildable U c = true) → (∀ c ∈ l, (c, none) ∈ t.uses) →
+      ∃ s', scanTypes U names l s acc = (s', .ok (acc ++ l.filterMap (choiceOf U names))) ∧
         Inv U t s' ∧ s'.xsi = s.xsi ∧ s'.sysModules = s.sysModules := by
-  intro fuel
-  induction fuel with
-  | zero =>
-    intro i s acc hI _ hlen
-    have : l.drop i = [] := List.drop_eq_nil_of_le (by omega)
-    exact ⟨s, by simp [scanTypes, this], hI, rfl, rfl⟩
-  | succ fuel ih =>
-    intro i s acc hI hlk hlen
+  intro l
+  induction l with
+  | nil => intro s acc hI _ _; exact ⟨s, by simp [scanTypes], hI, rfl, rfl⟩
+  | cons c rest ih =>
+    intro s acc hI hb hu
+    have hbc := hb c List.mem_cons_self
+    obtain ⟨m, hm⟩ := buildable_ok hbc
+    obtain ⟨s1, hr1, hI1, hx1, hm1, hl1⟩ :=
+      doLocalNamesMatch_spec hI hc (hu c List.mem_cons_self) (Or.inl hbc) names
+    obtain ⟨d, hd⟩ := pureBuild_ok_cls U c none m hm
     unfold scanTypes
-    simp only [hlk]
-    cases hi : l[i]? with
-    | none =>
-      have hle : l.length ≤ i := by
-        rcases Nat.lt_or_ge i l.length with h | h
-        · rw [List.getElem?_eq_getElem h] at hi; cases hi
-        · exact h
-      have : l.drop i = [] := List.drop_eq_nil_of_le hle
-      exact ⟨s, by simp [this], hI, rfl, rfl⟩
-    | some c =>
-      have hil : i < l.length := by
-        rcases Nat.lt_or_ge i l.length with h | h
-        · exact h
-        · rw [List.getElem?_eq_none h] at hi; cases hi
-      have hci : l[i] = c := by
-        rw [List.getElem?_eq_getElem hil] at hi
-        exact Option.some.inj hi
-      have hcl : c ∈ l := by rw [← hci]; exact List.getElem_mem hil
-      have hdrop : l.drop i = c :: l.drop (i + 1) := by
-        rw [← hci]; exact List.drop_eq_getElem_cons hil
-      obtain ⟨m, hm⟩ := buildable_ok (hb c hcl)
-      obtain ⟨s1, hr1, hI1, hx1, hm1, hl1⟩ :=
-        doLocalNamesMatch_spec hI hc (hu c hcl) (Or.inl (hb c hcl)) names
+    rw [hr1, hm]
+    dsimp only
+    have hb' : ∀ c' ∈ rest, buildable U c' = true := fun c' h => hb c' (List.mem_cons_of_mem _ h)
+    have hu' : ∀ c' ∈ rest, (c', none) ∈ t.uses := fun c' h => hu c' (List.mem_cons_of_mem _ h)
+    cases hnm : namesMatch names m with
+    | false =>
       dsimp only
-      rw [hr1, hm]
-      dsimp only
-      obtain ⟨d, hd⟩ := pureBuild_ok_cls U c none m hm
-      have hlk1 : s1.xsi.lookup k = some l := by rw [hx1]; exact hlk
-      cases hnm : namesMatch names m with
-      | false =>
-        simp only
-        obtain ⟨s2, hr2, hI2, hx2, hm2⟩ := ih (i + 1) s1 acc hI1 hlk1 (by omega)
-        refine ⟨s2, ?_, hI2, by rw [hx2, hx1], by rw [hm2, hm1]⟩
-        rw [hr2, hdrop]
-        simp [choiceOf, hm, hd, hnm]
-      | true =>
-        simp only [hl1 m hm, hd]
-        obtain ⟨s2, hr2, hI2, hx2, hm2⟩ :=
-          ih (i + 1) s1 (acc ++ [(c, (fieldDiff names m, d.name))]) hI1 hlk1 (by omega)
-        refine ⟨s2, ?_, hI2, by rw [hx2, hx1], by rw [hm2, hm1]⟩
-        rw [hr2, hdrop]
-        simp [choiceOf, hm, hd, hnm]
+      obtain ⟨s2, hr2, hI2, hx2, hm2⟩ := ih s1 acc hI1 hb' hu'
+      refine ⟨s2, ?_, hI2, by rw [hx2, hx1], by rw [hm2, hm1]⟩
+      rw [hr2]
+      simp [choiceOf, hm, hd, hnm]
+    | true =>
+      simp only [hl1 m hm, hd]
+      obtain ⟨s2, hr2, hI2, hx2, hm2⟩ :=
+        ih s1 (acc ++ [(c, (fieldDiff names m, d.name))]) hI1 hb' hu'
+      refine ⟨s2, ?_, hI2, by rw [hx2, hx1], by rw [hm2, hm1]⟩
+      rw [hr2]
+      simp [choiceOf, hm, hd, hnm]
 
 /-- the outer loop -/
 theorem scanKeys_spec {U : Universe} {t : Track} (hc : consistent U t.uses) (names : List Str)
@@ -333,35 +316,18 @@ theorem scanKeys_spec {U : Universe} {t : Track} (hc : consistent U t.uses) (nam
   | cons k ks ih =>
     intro s acc hI hx hall
     unfold scanKeys
-    cases hlk : idx.lookup k with
-    | none =>
-      -- the key is listed but has no entry: cannot happen for real dicts, handled anyway
-      have h0 : scanTypes U names k ((s.xsi.lookup k).getD []).length 0 s acc = (s, .ok acc) := by
-        rw [hx, hlk]; simp [scanTypes]
-      dsimp only
-      rw [h0]
-      dsimp only
-      obtain ⟨s2, hr2, hI2, hx2, hm2⟩ := ih s acc hI hx (fun k' hk' => hall k' (List.mem_cons_of_mem _ hk'))
-      refine ⟨s2, ?_, hI2, hx2, hm2⟩
-      rw [hr2]; simp [hlk]
-    | some l =>
-      have hk := hall k (List.mem_cons_self)
-      rw [hlk] at hk
-      simp only [Option.getD_some] at hk
-      have hlk' : s.xsi.lookup k = some l := by rw [hx]; exact hlk
-      obtain ⟨s1, hr1, hI1, hx1, hm1⟩ :=
-        scanTypes_spec hc names k l (fun c hc' => (hk c hc').1) (fun c hc' => (hk c hc').2)
-          l.length 0 s acc hI hlk' (by omega)
-      have hlen : ((s.xsi.lookup k).getD []).length = l.length := by rw [hlk']; rfl
-      dsimp only
-      rw [hlen, hr1]
-      dsimp only
-      obtain ⟨s2, hr2, hI2, hx2, hm2⟩ :=
-        ih s1 (acc ++ (l.drop 0).filterMap (choiceOf U names)) hI1 (by rw [hx1]; exact hx)
-          (fun k' hk' => hall k' (List.mem_cons_of_mem _ hk'))
-      refine ⟨s2, ?_, hI2, hx2, by rw [hm2, hm1]⟩
-      rw [hr2]
-      simp [hlk, List.filterMap_append]
+    have hk := hall k List.mem_cons_self
+    obtain ⟨s1, hr1, hI1, hx1, hm1⟩ :=
+      scanTypes_spec hc names ((idx.lookup k).getD []) s acc hI
+        (fun c hc' => (hk c hc').1) (fun c hc' => (hk c hc').2)
+    rw [hx, hr1]
+    dsimp only
+    obtain ⟨s2, hr2, hI2, hx2, hm2⟩ :=
+      ih s1 (acc ++ ((idx.lookup k).getD []).filterMap (choiceOf U names)) hI1 (by rw [hx1]; exact hx)
+        (fun k' hk' => hall k' (List.mem_cons_of_mem _ hk'))
+    refine ⟨s2, ?_, hI2, hx2, by rw [hm2, hm1]⟩
+    rw [hr2]
+    simp [List.filterMap_append]
 
 /-- **`find_type_by_fields` refines the specification** (when every indexed class is buildable) -/
 theorem doFindTypeByFields_spec {U : Universe} {t : Track} {s : State} (hI : Inv U t s) {w : World}
@@ -425,14 +391,14 @@ theorem serWalk_pure_mono (U : Universe) : ∀ (toks : List Tok) (us : List Use)
     | leave => simp only [serWalk]; exact ih _ _ _ u hu
 
 /-- **the serializer's walk on a shared context simulates the cache-free walk** -/
-theorem serWalk_sim {U : Universe} {t : Track} (hc : consistent U t.uses) :
+theorem serWalk_sim {R} {U : Universe} {t : Track} (hc : consistent U t.uses) :
     ∀ (toks : List Tok) (s : State) (us : List Use) (fs : List Frame) (out : List Str),
-      Inv U t s →
+      InvR R U t s →
       (∀ u ∈ (serWalk (σ := List Use) (fun us c p => (us ++ [(c, p)], pureBuild U c p)) toks us fs out).1,
         u ∈ t.uses) →
       (serWalk (fun s c p => doBuild U s c p) toks s fs out).2 =
         (serWalk (σ := List Use) (fun us c p => (us ++ [(c, p)], pureBuild U c p)) toks us fs out).2 ∧
-      Inv U t (serWalk (fun s c p => doBuild U s c p) toks s fs out).1 := by
+      InvR R U t (serWalk (fun s c p => doBuild U s c p) toks s fs out).1 := by
   intro toks
   induction toks with
   | nil => intro s us fs out hI _; exact ⟨rfl, hI⟩
